@@ -34,6 +34,10 @@ func init() {
 		fs = append(fs, cfs...)
 		inc = append(inc, cinc...)
 		ev["rt_ctx"] = cev
+		sfs, sev, sinc := rtPart(run, "commitsync", 32, 1200, map[string]int{"C05 triggers fired during the handling of a sync judged": 8})
+		fs = append(fs, sfs...)
+		inc = append(inc, sinc...)
+		ev["rt_commitsync"] = sev
 		for k, v := range rev {
 			ev[k] = v
 		}
